@@ -23,7 +23,8 @@ Schemes  == {"none", "Basic", "basic", "Bearer", "bearer", "Other"}
 Seps     == {"one", "two", "none", "tab"}
 Pays     == {"b64_U_P", "b64_U_wrong", "b64_wrong_P", "b64_U_empty", "b64_empty_P", "b64_U_Pprefix", "b64_U_Psuffix",
              "b64_nocolon", "b64_U_T", "badb64", "T", "Twrong", "Tprefix", "Tsuffix", "Tcase", "P", "empty",
-             "T_sp_extra", "junk_sp_T", "b64_U_P_sp_T", "b64_U_P_pad"}
+             "T_sp_extra", "junk_sp_T", "b64_U_P_sp_T", "b64_U_P_pad",
+             "b64_other_empty", "b64_empty_empty", "b64_other_wrong", "b64_Ucase_P", "b64_Upre_P"}
 Shapes   == {"api", "api_sub", "api_root", "apix", "ui", "root", "upper", "dslash"}
 Methods  == {"GET", "POST", "DELETE", "OPTIONS"}
 Confs    == [basic : BOOLEAN, token : BOOLEAN]
@@ -39,6 +40,11 @@ PayAtoms(p) ==
     [] p = "b64_nocolon"   -> <<B64(TRUE, "UP", "", FALSE)>>
     [] p = "b64_U_T"       -> <<B64(TRUE, "U", "T", TRUE)>>
     [] p = "b64_U_P_pad"   -> <<B64(FALSE, "U", "P", TRUE)>>          \* the right text with broken padding
+    [] p = "b64_other_empty" -> <<B64(TRUE, "other", "", TRUE)>>
+    [] p = "b64_empty_empty" -> <<B64(TRUE, "", "", TRUE)>>
+    [] p = "b64_other_wrong" -> <<B64(TRUE, "other", "wrong", TRUE)>>
+    [] p = "b64_Ucase_P"     -> <<B64(TRUE, "Ucase", "P", TRUE)>>
+    [] p = "b64_Upre_P"      -> <<B64(TRUE, "Upre", "P", TRUE)>>
     [] p = "badb64"        -> <<Raw("junk")>>
     [] p = "T"             -> <<Raw("T")>>
     [] p = "Twrong"        -> <<Raw("Twrong")>>
